@@ -568,6 +568,14 @@ func runC09(res *Result, tier string, seed int64, replay string) {
 				at.Kids = append(at.Kids, mk("mj-class", "name", "m1", attr, v2), mk("mj-class", "name", "m2", attr, v1))
 				find(d).Set("mj-class", "m1 m2")
 			}), find, attr, v1, "mj-class(later-wins)", informative)
+			// the class list is split on any white space: tabs, line breaks, leading and trailing blanks, repeated and unknown names
+			for si, sep := range []string{"m1\tm2", "m1\nm2", "\tm2", "m2\n", "m1  m2", " m1 \t\n m2 ", "m1 nosuch m2", "m2 m2", "m1\r\nm2"} {
+				sep := sep
+				noop(withHead(func(at, d *Node) {
+					at.Kids = append(at.Kids, mk("mj-class", "name", "m1", attr, v2), mk("mj-class", "name", "m2", attr, v1))
+					find(d).Set("mj-class", sep)
+				}), find, attr, v1, fmt.Sprintf("mj-class(list-spelling-%d)", si), informative)
+			}
 			// competing levels, winner not the element itself
 			noop(withHead(func(at, d *Node) {
 				at.Kids = append(at.Kids, mk("mj-class", "name", "m1", attr, v1), mk(tag, attr, v2))
